@@ -246,6 +246,12 @@ func nextCap(oldCap, needed int) int {
 
 func (e *Engine) builtin(b *ssa.Builtin, args []Value, call *ssa.Call) Value {
 	switch b.Name() {
+	case "ssa:wrapnilchk":
+		// value-receiver method called through a pointer: the wrapper panics on a nil pointer
+		if p, ok := args[0].(*Value); ok && p == nil {
+			e.goPanicStr("value method " + args[1].(Str).S + "." + args[2].(Str).S + " called using nil pointer")
+		}
+		return args[0]
 	case "len":
 		switch x := args[0].(type) {
 		case Str:
